@@ -99,7 +99,23 @@ def replay_path_batch(case):
             buf3 = io.BytesIO()
             with TdmsWriter(buf3) as w:
                 for i, (nm, _) in enumerate(tail):
-                    w.write_segment([ChannelObject(nm[0], nm[1], np.array([i, i + 1], dtype=np.int32), {"id": "c%d" % i})])
+                    # objects built without properties and filled in afterwards (each object has its own properties);
+                    # every other call hands the objects over as a one-shot iterator instead of a list
+                    co = ChannelObject(nm[0], nm[1], np.array([i, i + 1], dtype=np.int32))
+                    if co.properties is None:
+                        co.properties = {}
+                    co.properties["id"] = "c%d" % i
+                    co.properties["only%d" % i] = i
+                    w.write_segment(iter([co]) if i % 2 else [co])
+            f3 = TdmsFile.read(io.BytesIO(buf3.getvalue()))
+            for i, (nm, _) in enumerate(tail):
+                try:
+                    have = set(f3[nm[0]][nm[1]].properties)
+                except Exception as ex:  # noqa
+                    have = {"%s: %s" % (type(ex).__name__, ex)}
+                if have != {"id", "only%d" % i}:
+                    fails.append(({"kind": "path", "level": "properties-of-another-object"},
+                                  {"names": [x[:40] for x in nm], "expected": ["id", "only%d" % i], "observed": sorted(have)[:8]}))
             _check_file(TdmsFile.read(io.BytesIO(buf3.getvalue())), tail, "end-to-end-channels-only-stream", fails,
                         group_order="first")
             from . import parser as _parser
